@@ -274,6 +274,16 @@ func (s *clientSocket) finishUpgradeTo(t ClientTransport, c *transport.Callbacks
 	s.transportMu.Lock()
 	defer s.transportMu.Unlock()
 
+	// The socket might have been closed while the new transport was being probed. See `upgradeTo` of the server socket.
+	select {
+	case <-s.closeChan:
+		s.debug.Log("upgradeTo", "socket is closed. Closing the new transport")
+		c.Set(nil, nil)
+		t.Close()
+		return
+	default:
+	}
+
 	old := s.transport
 	s.transport = t
 
